@@ -29,7 +29,7 @@ def check(ctx):
     q = ctx.tier == 'quick'
     jobs = str(min(vlib.NJOBS, 12))
     if q:
-        args = ['--plan', '4:abcd:0,5:abd:0,6:ad:0', '--len-free', '5', '--kinds', 'abd', '--reps', '1', '--deadline', '45']
+        args = ['--plan', '4:abcd:0,6:ad:0,5:abd:0', '--len-free', '5', '--kinds', 'abd', '--reps', '1', '--deadline', '50']
     else:
         args = ['--plan', '6:abcd:0,7:abd:6,8:ad:7', '--len-free', '6', '--kinds', 'abcd', '--reps', '2', '--deadline', '1000', '--thorough']
     ctx.run_engine(exe, args + ['--outdir', vlib.OUT, '--jobs', jobs], label='wait', timeout=(600 if q else 2400))
